@@ -829,6 +829,9 @@ static int conf_replace_value(struct conf_node_base *target_, struct conf_node_b
             target->value = NULL;
             conf_parse_string_value(target);
         }
+        /* conf_parse_string_value() cannot see that a value was withdrawn. */
+        if (orig_value && !target->value && target_->hook)
+            target_->hook(target_);
         xfree(orig_value);
         break;
     }
